@@ -139,10 +139,17 @@ def ctxValues (s : SchemaD) (fx : Fixes) : Q.CTXQ ⟨s, fx, [.valuesOfCorrectTyp
   enterI _ _ _ _ := trivial
   leaveI _ _ _ _ := trivial
   skipE n st _ _ hb := by
-    rw [enter_one']
     obtain ⟨h1, h2⟩ := voc_enter s fx n (tiEnter s n st.ti) st.rs
     simp only [hb, ↓reduceIte] at h2
-    exact ⟨by rw [h1]; exact hb, h2⟩
+    have hs : (enter ⟨s, fx, [.valuesOfCorrectType]⟩ n st).2 = true := by rw [enter_one']; rw [h1]; exact hb
+    refine ⟨hs, ?_⟩
+    rw [leaveSkipped_enter_single s fx _ n st hs]
+    exact h2
+  skipI _ _ _ _ _ := trivial
+  skip_ctx n st _ _ hb := by
+    have hs : (enter ⟨s, fx, [.valuesOfCorrectType]⟩ n st).2 = true := by
+      rw [enter_one']; rw [(voc_enter s fx n (tiEnter s n st.ti) st.rs).1]; exact hb
+    rw [leaveSkipped_enter_single s fx _ n st hs]
   noskip n st _ _ hb := by
     rw [enter_one']
     rw [(voc_enter s fx n (tiEnter s n st.ti) st.rs).1]; exact hb
